@@ -1283,6 +1283,10 @@ pub struct Br {
     pub ws: Vec<Wd>,
     /// repayment as per-mille of what keeps maintenance health unchanged
     pub repay_pm: u16,
+    /// the risk admin repays the WHOLE debt (repay_all) instead: the account ends the bracket debt-free, which must
+    /// not excuse taking more collateral than that was worth
+    #[serde(default)]
+    pub repay_all: bool,
 }
 #[derive(Clone, Debug, Serialize, Deserialize, PartialEq)]
 pub struct DCase {
@@ -1303,7 +1307,7 @@ const GAPS: &[u32] = &[0, 1, 100, 43_200, 86_399, 86_400, 86_401, 172_800];
 fn dcase_strategy() -> BoxedStrategy<DCase> {
     let wd = (prop_oneof![2 => Just(0u8), 3 => Just(1u8)], prop_oneof![3 => 0u32..20, 2 => 20u32..2_000, 1 => 2_000u32..10_000], prop_oneof![5 => -2i8..=0, 2 => 1i8..=2], prop_oneof![3 => Just(0u16), 2 => 1u16..1000, 1 => Just(999u16)])
         .prop_map(|(mode, dollars, delta, frac_pm)| Wd { mode, dollars, delta, frac_pm });
-    let br = (prop::sample::select(GAPS.to_vec()), prop::collection::vec(wd, 1..=3), prop_oneof![6 => 1_050u16..1_500, 1 => 900u16..1_000, 1 => Just(1_000u16)]).prop_map(|(gap, ws, repay_pm)| Br { gap, ws, repay_pm });
+    let br = (prop::sample::select(GAPS.to_vec()), prop::collection::vec(wd, 1..=3), prop_oneof![6 => 1_050u16..1_500, 1 => 900u16..1_000, 1 => Just(1_000u16)]).prop_map(|(gap, ws, repay_pm)| Br { gap, ws, repay_pm, repay_all: repay_pm % 4 == 1 });
     (
         prop_oneof![Just(6u8), Just(8u8), Just(9u8)],
         0u8..5,
@@ -1472,8 +1476,26 @@ pub fn run_dcase(c: &DCase, st: &mut DStats) -> Result<(), (String, String)> {
         let p1 = oracle_view(&w.vm, &bank1, now).high(PriceKind::Spot).map(|p| p.lo).unwrap_or_else(q_one);
         let need = &total_value_hi * q_w(bank0.config.asset_weight_maint) / (q_w(bank1.config.liability_weight_maint) * &p1) * pow10(6);
         let repay = (q_ceil(&(need * q_ratio(br.repay_pm as u64, 1000u64))).to_u64().unwrap_or(u64::MAX / 4)).saturating_add(if br.repay_pm > 1000 { 5 } else { 0 });
-        ixs.push(w.ix_repay(victim, risk, 1, rt1, repay.max(1), None));
-        ixs.push(w.ix_end_deleverage(victim, risk, riskm.clone()));
+        if br.repay_all {
+            // one more, large withdrawal: around what clearing the whole debt is worth at maintenance weights
+            // (repay_pm / 1000 of it: below, at and above the health-neutral amount)
+            if c.limit == 0 {
+                let a = w.macct(&victim);
+                let debt_bits = a.lending_account.balances.iter().find(|b| b.active != 0 && b.bank_pk == w.banks[1].key).map(|b| crate::snap::bits(b.liability_shares)).unwrap_or(0);
+                let p1h = oracle_view(&w.vm, &bank1, now).high(PriceKind::Spot).map(|p| p.hi).unwrap_or_else(q_one);
+                let debt_value = q_bits(debt_bits) * q_w(bank1.liability_share_value) * q_w(bank1.config.liability_weight_maint) * &p1h / pow10(6);
+                let neutral_units = &debt_value / (q_w(bank0.config.asset_weight_maint) * &p_low.lo) * &scale;
+                let extra = q_ceil(&(neutral_units * q_ratio(br.repay_pm as u64, 1000u64))).to_u64().unwrap_or(0);
+                if extra > 0 {
+                    ixs.push(w.ix_withdraw_with(victim, risk, 0, rt0, extra, None, riskm.clone()));
+                }
+            }
+            ixs.push(w.ix_repay(victim, risk, 1, rt1, 0, Some(true)));
+            ixs.push(w.ix_end_deleverage(victim, risk, w.risk_metas(&victim, None, Some(w.banks[1].key))));
+        } else {
+            ixs.push(w.ix_repay(victim, risk, 1, rt1, repay.max(1), None));
+            ixs.push(w.ix_end_deleverage(victim, risk, riskm.clone()));
+        }
         // malformed brackets never commit: no end; a withdraw after the end
         {
             let mut probe = w.vm.clone();
@@ -1552,7 +1574,7 @@ pub fn run_dcase(c: &DCase, st: &mut DStats) -> Result<(), (String, String)> {
 // ==========================================================================================
 // Driver
 // ==========================================================================================
-const RULE: &str = "proptest, one stream per instruction. Parts A/B: 3-bank worlds (SPL / Token-2022 / transfer-fee mints, fixed / Pyth / Switchboard oracles, e-mode, caps) with depositors and borrowers in every bank; the target bank's pre-state flag word is set through real instructions (configure_bank: freeze / permissionless bad debt / tokenless repayments; force_tokenless_repay_complete; optional emissions set-up; CLOSE_ENABLED from creation). A: every delegated-admin instruction (interest-only, limits-only, e-mode configure, e-mode clone by e-mode or group admin, setup_emissions, update_emissions_parameters, init/write_bank_metadata, force_tokenless_repay_complete, purge_deleverage_balance) with every Option combination, 64-bit flag words (uniform, single bits, all subsets of the two emission bits, emission bits mixed with others), limits 0/1/MAX, valid and invalid curves / e-mode entries / amounts; after each SUCCESS the whole account store is diffed field by field and every changed field/account must lie in the role's frame written from the statement (cache.*, last_update always allowed). B: with FREEZE_SETTINGS set, configure_bank (all BankConfigOpt combinations incl. freeze_settings=false), interest-only, limits-only, configure_bank_oracle, set_fixed_oracle_price, e-mode configure/clone, setup/update emissions by the proper signer: weights, oracle settings, curve, risk tier, cap, operational state, asset tag and the freeze bit are unchanged after any success. C: risk-admin brackets [start_deleverage, withdraw x1-3, repay, end_deleverage] with withdraw sizes around (limit - withdrawn) +-2 $, limits 0..50k $, clock gaps {0,1,100,43200,86399,86400,86401,172800} s: committed bracket => health not lower (model enclosure), flags cleared, sum of per-withdrawal whole dollars in the model's day window <= limit; no withdraw outside / after a bracket. Non-trivial = successful admin instruction on a frozen bank or with an out-of-remit bit/field in its argument; committed or rejected deleverage bracket that crosses the limit, hits it exactly, or restarts the day window.";
+const RULE: &str = "proptest, one stream per instruction. Parts A/B: 3-bank worlds (SPL / Token-2022 / transfer-fee mints, fixed / Pyth / Switchboard oracles, e-mode, caps) with depositors and borrowers in every bank; the target bank's pre-state flag word is set through real instructions (configure_bank: freeze / permissionless bad debt / tokenless repayments; force_tokenless_repay_complete; optional emissions set-up; CLOSE_ENABLED from creation). A: every delegated-admin instruction (interest-only, limits-only, e-mode configure, e-mode clone by e-mode or group admin, setup_emissions, update_emissions_parameters, init/write_bank_metadata, force_tokenless_repay_complete, purge_deleverage_balance) with every Option combination, 64-bit flag words (uniform, single bits, all subsets of the two emission bits, emission bits mixed with others), limits 0/1/MAX, valid and invalid curves / e-mode entries / amounts; after each SUCCESS the whole account store is diffed field by field and every changed field/account must lie in the role's frame written from the statement (cache.*, last_update always allowed). B: with FREEZE_SETTINGS set, configure_bank (all BankConfigOpt combinations incl. freeze_settings=false), interest-only, limits-only, configure_bank_oracle, set_fixed_oracle_price, e-mode configure/clone, setup/update emissions by the proper signer: weights, oracle settings, curve, risk tier, cap, operational state, asset tag and the freeze bit are unchanged after any success. C: risk-admin brackets [start_deleverage, withdraw x1-3, repay (a quarter of them repay_all: the account ends debt-free), end_deleverage] with withdraw sizes around (limit - withdrawn) +-2 $, limits 0..50k $, clock gaps {0,1,100,43200,86399,86400,86401,172800} s: committed bracket => health not lower (model enclosure), flags cleared, sum of per-withdrawal whole dollars in the model's day window <= limit; no withdraw outside / after a bracket. Non-trivial = successful admin instruction on a frozen bank or with an out-of-remit bit/field in its argument; committed or rejected deleverage bracket that crosses the limit, hits it exactly, or restarts the day window.";
 
 fn split_err(msg: &str) -> (String, String) {
     msg.split_once('|').map(|(a, b)| (a.to_string(), b.to_string())).unwrap_or((msg.to_string(), msg.to_string()))
